@@ -6,15 +6,15 @@ props = {l["id"]: l for l in (json.loads(x) for x in open(os.path.join(HERE, "pr
 
 CHECKS = {
  "C01": ("exploration", "sanitizers (ASan+UBSan with gcc and clang, MemorySanitizer with clang incl. an initialised-memory check of every transmitted frame; valgrind sample) + invariant walkers + CPU watchdog + frame bound over hostile-grammar histories and an enumerated SDO state x command sweep",
-         "Held on the histories executed (thousands quick, >10^5 thorough) over generated dictionaries, CO_SSDO_N in {1,2}, all NMT states, driver faults; red-zone tools miss intra-object overflows, covered by UBSan bounds and the invariant walkers.",
+         "Held on the histories executed (thousands quick, >10^5 thorough) over generated dictionaries, builds with CO_SSDO_N / CO_CSDO_N in {1,2}, without LSS and SDO client, with CO_RPDO_N/CO_TPDO_N 2/6 and 5/3, all NMT states, driver faults, deferred timer processing; red-zone tools miss intra-object overflows, covered by UBSan bounds and the invariant walkers.",
          "hostile workload + sanitizers + invariant monitors", "3/C01"),
- "C02": ("exploration", "reference SDO client (every conforming choice) against the real server; response-by-response check and whole-dictionary storage comparison after every confirmed download; two interleaved servers",
+ "C02": ("exploration", "reference SDO client (every conforming choice) against the real server; response-by-response check and whole-dictionary storage comparison after every confirmed download; two interleaved servers, hostile traffic on and switching of the other server",
          "Held on the transfers executed; lost block-final segments are not modelled (client would time out).", "reference-client monitor + storage comparison", "3/C02"),
- "C03": ("exploration", "reference SDO client uploads (normal and block, every block size, any acknowledged prefix, changing block size, repeated reads); assembled bytes and announced size compared with the object",
+ "C03": ("exploration", "reference SDO client uploads (normal and block, every block size, any acknowledged prefix, changing block size, repeated reads, objects up to 2*65536+889 bytes, uploads after server-aborted transfers, interleaving with a second server); assembled bytes and announced size compared with the object",
          "Held on the uploads executed (systematic for small objects/block sizes, random otherwise).", "reference-client monitor", "3/C03"),
- "C04": ("exploration", "relational server model: all 2^16 indices swept, access matrix of request kinds x size classes, 7 protocol states x 256 command bytes x 6 payloads with acceptable response counts, refusal-changes-nothing and multiplexer checks",
+ "C04": ("exploration", "relational server model: all 2^16 indices swept, access matrix of request kinds x size classes, 18 protocol states (open, completed and server-aborted transfers) x 256 command bytes x 7 payloads with acceptable response counts, refusal-changes-nothing and multiplexer checks, repeated on either server of a two-server build beside an open transfer",
          "Index and state x command sweeps are complete enumerations; payload/content dimensions are sampled. Behaviour CiA 301 leaves open is accepted in every listed alternative.", "relational-model monitor over enumerated requests", "3/C04"),
- "C05": ("exploration", "hostile SDO histories; before each probe the reachable server state is read from the public structure; [abort | reset communication] + clean reference transfer must succeed",
+ "C05": ("exploration", "hostile SDO histories; before each probe the reachable server state is read from the public structure; [client abort | reset communication | nothing after an abort by the server | reset requested inside an object write function] + clean reference transfer must succeed; one or two servers",
          "AG EF idle restated as: recovered from every distinct reachable state observed (count in evidence).", "recovery probes after hostile histories", "3/C05"),
  "C06": ("exploration", "C engine with independent oracles: exhaustive small-scope dictionaries in exact-size arrays (ASan red-zone behind the end marker), random dictionaries, counting type for init-exactly-once, all 8/16-bit values and boundary/random 32-bit values for typed access, every buffer length 0..4000",
          "Small scope (all subsets of 8 keys), 8/16-bit value domains and buffer lengths are complete enumerations; large dictionaries and 32-bit values are sampled.", "enumerated differential test against a linear-scan oracle under ASan", "3/C06"),
@@ -22,29 +22,29 @@ CHECKS = {
          "Exhaustive only up to the reported depth / state cap per pool size; delays from a small domain in the exhaustive part.", "lockstep reference-model monitor over enumerated + random operation sequences", "3/C07"),
  "C08": ("exploration", "trap-flag single stepping raises the tick ISR at every instruction of every task-level timer call (deferred to unlock inside critical sections); trace oracles for exactly-once, no-loss, no-run-after-delete, conservation at quiescent points and ISR entries; separated service/process",
          "Interleavings: one or two interrupts per call, at x86-64 instruction granularity of the gcc -O1 build; single core, non-nesting ISR.", "instruction-granular interrupt injection + trace monitors", "3/C08"),
- "C09": ("exploration", "reference NMT FSM + gating table; operation sequences enumerated to a depth bound (quick 3, thorough 4) plus random longer ones, scripted application reactions inside the mode change callback x every operation pair; the service probes after EVERY operation; frames, callbacks, mode and object effects compared",
+ "C09": ("exploration", "reference NMT FSM + gating table; operation sequences enumerated to a depth bound (quick 3, thorough 4) plus random longer ones, scripted application reactions inside the mode change and reset request callbacks x every operation pair; identifiers beyond 11 bit; the service probes after EVERY operation; frames, callbacks, mode and object effects compared",
          "Complete for the operation alphabet up to the depth bound; delivery of unclaimed frames in STOPPED/INITIALISING is open.", "lockstep reference-FSM monitor with service probes", "3/C09"),
- "C10": ("exploration", "tick-by-tick comparison of heartbeat emissions with the reference schedule over histories mixing every other timer user, NMT changes, resets and 1017h writes (SDO and API)",
+ "C10": ("exploration", "tick-by-tick comparison of heartbeat emissions with the reference schedule over histories mixing every other timer user, NMT changes, resets and 1017h writes (SDO and API, also with the timer pool completely in use)",
          "Histories sampled; phase after boot-up/reset open, after a write exact.", "reference-schedule monitor", "3/C10"),
  "C11": ("exploration", "reference consumer monitor in lockstep: events with ticks, counters, last state, write verdicts and read-back; write-class x entry-state matrix enumerated, saturation history",
          "Histories sampled; node ids 1..127.", "lockstep reference-monitor", "3/C11"),
- "C12": ("exploration", "reference TPDO model in ticks compared with every emitted frame; random histories plus an enumerated sweep of (inhibit, event, trigger offset) incl. coincidences",
+ "C12": ("exploration", "reference TPDO model in ticks compared with every emitted frame; random histories (1..6 TPDO channels, re-mapping while OPERATIONAL, frames refused by the driver, RPDO switching beside synchronous TPDOs) plus an enumerated sweep of (inhibit, event, trigger offset) incl. coincidences",
          "Histories sampled; one known finding (event-time write during a running inhibit time) is exercised by a witness and excluded from the random workload.", "reference-model monitor over emissions", "3/C12"),
- "C13": ("exploration", "whole object storage compared with the reference RPDO model after every step; all channel-subset x sync-assignment tables enumerated, mappings incl. dummies and histories random",
+ "C13": ("exploration", "whole object storage compared with the reference RPDO model after every step; all channel-subset x sync-assignment tables enumerated, mappings incl. dummies, partial mappings of objects up to 260 bytes, reconfiguration through SDO between reception and SYNC, identifiers beyond 11 bit; histories random",
          "Table structure enumerated, payloads/histories sampled.", "reference-model monitor over storage", "3/C13"),
- "C14": ("exploration", "CiA 301 precondition model for every write (verdict, code, read-back) plus activation invariant on the live PDO tables and behavioural probes after every activation",
+ "C14": ("exploration", "CiA 301 precondition model for every write (verdict, code, read-back) plus activation invariant on the live PDO tables and behavioural probes after every activation (incl. frames waiting in synchronous RPDOs across a reconfiguration); builds with unequal channel counts",
          "Write sequences sampled from a covering value domain; open points listed in the evidence assumptions.", "rule-model monitor + invariant at activation", "3/C14"),
- "C15": ("exploration", "reference emergency model compared after every step (frames, count, register, COEmcyGet, history via API and SDO); sequences enumerated to a depth bound on a 4-error table, random tables/histories, wrap-around at every fill level",
+ "C15": ("exploration", "reference emergency model compared after every step (frames, count, register, COEmcyGet, history via API and SDO); sequences enumerated to a depth bound on a 4-error table, random tables/histories, wrap-around at every fill level (depths up to 254), application observing the state inside COPdoTransmit",
          "Complete for the alphabet up to depth 4 (quick) / 5 (thorough) on the fixed table; random beyond.", "lockstep reference-model monitor", "3/C15"),
- "C16": ("exploration", "reference model of SYNC consumption/production: produced frames tick by tick, write verdicts and read-back, synchronous TPDO/RPDO reactions to every received SYNC",
+ "C16": ("exploration", "reference model of SYNC consumption/production: produced frames tick by tick, write verdicts and read-back, synchronous TPDO/RPDO reactions to every received SYNC; also on a build without SDO client / LSS",
          "Histories sampled over six timer frequencies (100 Hz .. 1 MHz) and periods up to 2^32-1 us; stored configuration compared after power cycle and reset.", "reference-model monitor", "3/C16"),
- "C17": ("fault_enumeration", "for every generated request sequence: fault-free run, a power cycle after every request prefix, and every NVM driver call (reads and writes) made short by 1 byte and by the whole block; RAM, NVM, verdicts, node error and default callbacks compared with the model after every step",
+ "C17": ("fault_enumeration", "for every generated request sequence: fault-free run, a power cycle after every request prefix, and every NVM driver call (reads and writes) made short by 1 byte and by the whole block; RAM, NVM, verdicts, node error and default callbacks compared with the model after every step; also on a build without LSS / SDO client",
          "Exhaustive over restart points and fault positions per generated (layout, sequence); torn writes inside one request are outside the property.", "fault enumeration with lockstep reference model", "3/C17"),
- "C18": ("exploration", "reference CiA 305 FSM; breadth-first over distinct reference states to a depth bound (every abstract request in every distinct state, replayed on the real node) plus random sequences; responses, store arguments, foreign reactions, boot-up id after reset compared",
+ "C18": ("exploration", "reference CiA 305 FSM; breadth-first over distinct reference states to a depth bound (every abstract request in every distinct state, replayed on the real node) plus random sequences; responses, store arguments, foreign reactions, boot-up id after reset compared; identity entries re-written by the application",
          "Complete over the abstract request set per distinct reference state up to the depth bound; near-miss selective/identify sequences (single and double mutations) enumerated.", "lockstep reference-FSM monitor", "3/C18"),
- "C19": ("exploration", "scripted reference SDO server (conforming and deviating at every step k); per transfer: exactly one callback with code and tick, request frames equal the reference client's, buffer content under ASan, busy refusal, no timer/state left behind, next transfer unaffected",
+ "C19": ("exploration", "scripted reference SDO server (conforming and deviating at every step k); per transfer: exactly one callback with code and tick, request frames equal the reference client's, buffer content under ASan, busy refusal, no timer/state left behind, next transfer unaffected; one or two clients, timeouts 0 .. 2^32 ms, reset inside the completion callback",
          "Every size 1..600 per direction (thorough) and every deviation step for short transfers; larger sizes sampled.", "reference-server monitor + timer-occupancy invariant", "3/C19"),
- "C20": ("exploration", "differential execution: node after history + reset versus a fresh executor initialised with the same dictionary values, identical probe sequence, trace equality and timer-occupancy equality",
+ "C20": ("exploration", "differential execution: node after history + reset versus a fresh executor initialised with the same dictionary values, identical probe sequence, trace equality and timer-occupancy equality; resets from the bus or requested inside callbacks, stored LSS node id, self-starting application, two-server and no-LSS/no-client builds",
          "Equivalence established for the probe sequence only.", "differential trace monitor", "3/C20"),
 }
 NA = {}
